@@ -163,6 +163,47 @@ def score (beta u Y X Z : List (List α)) (t : Nat) : List (Option α) :=
 
 end stats
 
+/-! ### miscellaneous random effects (`u = concatenate([u_misc, u_a(, u_d)])`) and breeding-value
+    matrices as phenotype input (`ptobj.unscale()`) -/
+
+section misc
+variable {α : Type} [Add α] [Mul α] [Sub α] [Div α] [Zero α] [One α] [NatCast α] [IntCast α]
+  [DecidableEq α]
+
+/-- additive model, `predict_numpy(X, Z)` with `Z = [Z_misc | Z_a]` and `u = [u_misc ; u_a]` -/
+def predictNumpyMisc (beta um ua X Zm Za : List (List α)) (t : Nat) : List (List α) :=
+  predictNumpy beta (um ++ ua) X (hcat Zm Za) t
+
+/-- dominance model, `predict_numpy(X, Z)` with `Z = [Z_misc | A | D]`, `u = [u_misc ; u_a ; u_d]` -/
+def predictNumpyDomMisc (beta um ua ud X Zm : List (List α)) (t : Nat) (ploidy : Int)
+    (A : List (List Int)) : List (List α) :=
+  predictNumpy beta (um ++ (ua ++ ud)) X (hcat Zm (castM (hcat A (hetGM ploidy A)))) t
+
+/-- `predict(cvobj, gtobj)` of the additive model: `Z` is the dosage matrix only, so the shape check
+    `Z.shape[1] == nexplan_u` rejects the call when miscellaneous effects are present -/
+def predictGM (beta um ua X : List (List α)) (A : List (List Int)) (t : Nat) :
+    Except String (List (List α)) :=
+  if um.length = 0 then .ok (predictNumpy beta (um ++ ua) X (castM A) t) else .error "value"
+
+/-- `score_numpy` with miscellaneous effects -/
+def scoreMisc (beta um ua Y X Zm Za : List (List α)) (t : Nat) : List (Option α) :=
+  score beta (um ++ ua) Y X (hcat Zm Za) t
+
+/-- `DenseBreedingValueMatrix.unscale()`: `scale * mat + location` (dense, per trait column) -/
+def unscaleBV (mat : List (List α)) (loc scale : List α) : List (List α) :=
+  mat.map (fun r => List.zipWith (fun (x : α) (ms : α × α) => ms.2 * x + ms.1) r (List.zip loc scale))
+
+/-- `from_numpy`'s standardisation `(1/scale) * (Y - location)` for given location / scale -/
+def standardiseBV (Y : List (List α)) (loc scale : List α) : List (List α) :=
+  Y.map (fun r => List.zipWith (fun (y : α) (ms : α × α) => ((1 : α) / ms.2) * (y - ms.1)) r (List.zip loc scale))
+
+/-- `score(ptobj = BreedingValueMatrix, …)`: `Y = ptobj.unscale()` -/
+def scoreBV (beta u mat : List (List α)) (loc scale : List α) (X Z : List (List α)) (t : Nat) :
+    List (Option α) :=
+  score beta u (unscaleBV mat loc scale) X Z t
+
+end misc
+
 /-! ### favourable / deleterious / neutral alleles (integers and booleans only) -/
 
 section alleles
